@@ -236,6 +236,52 @@ func (n *Normer) CondOf(v ssa.Value) *Cond {
 		if i, ok := n.PhiChoice[x]; ok {
 			return n.CondOf(x.Edges[i])
 		}
+		// a boolean computed by short-circuit evaluation and stored in a variable: expand over
+		// the incoming edges (not for loop-carried phis)
+		if _, bound := n.Bind[v]; !bound && isBoolType(x.Type()) && n.phiDepth < 3 {
+			blk := x.Block()
+			loopCarried := false
+			for _, p := range blk.Preds {
+				if blk.Dominates(p) {
+					loopCarried = true
+				}
+			}
+			from := n.curFrom
+			if from != nil && (!from.Dominates(blk) || from == blk) {
+				from = nil
+			}
+			if !loopCarried {
+				n.phiDepth++
+				total := cFalse
+				for ei, e := range x.Edges {
+					pred := blk.Preds[ei]
+					edge := cAnd(n.ReachCond(blk.Parent(), from, pred), n.EdgeCond(pred, blk))
+					total = cOr(total, cAnd(edge, n.CondOf(e)))
+				}
+				n.phiDepth--
+				return total
+			}
+		}
+	case *ssa.Call:
+		// pure boolean helper of the repository without loops: its truth condition with the
+		// arguments substituted (extracting a predicate into a helper does not change the form)
+		if _, bound := n.Bind[v]; !bound {
+			if cal := x.Common().StaticCallee(); cal != nil && isRepoFunc(cal) && cal.Blocks != nil && n.depth < n.MaxInline &&
+				cal.Signature.Results().Len() == 1 && isBoolType(cal.Signature.Results().At(0).Type()) && pureLoopFree(cal) {
+				env := map[ssa.Value]Poly{}
+				for i, p := range cal.Params {
+					if i < len(x.Common().Args) {
+						env[p] = n.Norm(x.Common().Args[i])
+					}
+				}
+				n.env = append(n.env, env)
+				n.depth++
+				c := FuncTruthCond(n, cal)
+				n.depth--
+				n.env = n.env[:len(n.env)-1]
+				return c
+			}
+		}
 	}
 	before := n.Opaque
 	n.Opaque = false
@@ -274,6 +320,9 @@ func (n *Normer) ReachCond(fn *ssa.Function, from, target *ssa.BasicBlock) *Cond
 	if from == nil {
 		from = fn.Blocks[0]
 	}
+	saved := n.curFrom
+	n.curFrom = from
+	defer func() { n.curFrom = saved }()
 	// blocks that can reach target (forward edges only)
 	canReach := map[*ssa.BasicBlock]bool{target: true}
 	changed := true
@@ -555,4 +604,26 @@ func refCond(e ast.Expr) (*Cond, error) {
 		}
 	}
 	return nil, fmt.Errorf("unsupported reference condition %T", e)
+}
+
+// pureLoopFree: no back edges, no stores/sends/go/defer/panic, only calls to builtins.
+func pureLoopFree(fn *ssa.Function) bool {
+	for _, b := range fn.Blocks {
+		for _, s := range b.Succs {
+			if s.Dominates(b) {
+				return false
+			}
+		}
+		for _, ins := range b.Instrs {
+			switch x := ins.(type) {
+			case *ssa.Store, *ssa.Send, *ssa.Go, *ssa.Defer, *ssa.MapUpdate, *ssa.Panic:
+				return false
+			case *ssa.Call:
+				if _, ok := x.Common().Value.(*ssa.Builtin); !ok {
+					return false
+				}
+			}
+		}
+	}
+	return true
 }
